@@ -43,6 +43,7 @@ type prow struct {
 	fv    *modelv1.FieldValue
 	field string
 	group string
+	gidx  int
 	shard int
 	idx   int
 }
@@ -69,10 +70,7 @@ func (f *fakeResult) Pull() *model.MeasureResult {
 	}
 	r := f.rows[f.pos]
 	f.pos++
-	sid := common.SeriesID(1)
-	if r.group == groupNames[1] {
-		sid = 2
-	}
+	sid := common.SeriesID(1 + r.gidx)
 	return &model.MeasureResult{
 		SID:        sid,
 		Timestamps: []int64{int64(r.idx+1) * int64(time.Millisecond)},
@@ -218,6 +216,7 @@ func buildRequest(field string, c *Case) *measurev1.QueryRequest {
 	if c.Fn != "" {
 		req.Agg = &measurev1.QueryRequest_Aggregation{Function: fnModel[fnIndex(c.Fn)], FieldName: field}
 	}
+	req.Limit, req.Offset = c.Limit, c.Offset
 	if c.TopN > 0 {
 		srt := modelv1.Sort_SORT_DESC
 		if c.TopAsc {
@@ -268,7 +267,34 @@ func fmtOut[N aggregation.Number](k *kind[N], rows []outRow[N]) string {
 func checkResult[N aggregation.Number](k *kind[N], c *Case, pre, what string, got []outRow[N], want map[string]N, rawVals []N) []viol {
 	var out []viol
 	bad := func(key, why string) {
-		out = append(out, viol{pre + what + "/" + key, fmt.Sprintf("%s; got %s", why, fmtOut(k, got))})
+		d := fmt.Sprintf("%s; got %s", why, fmtOut(k, got))
+		if len(d) > 2000 {
+			d = d[:2000] + "..."
+		}
+		out = append(out, viol{pre + what + "/" + key, d})
+	}
+	// the row plans end in limit(offset, limit) (default limit 100); the vectorized operators are driven without it
+	lim, off := -1, 0
+	if what == "standalone" || what == "distributed" {
+		lim, off = int(c.Limit), int(c.Offset)
+		if lim == 0 {
+			lim = 100
+		}
+	}
+	clip := func(n int) int {
+		if n -= off; n < 0 {
+			n = 0
+		}
+		if lim >= 0 && n > lim {
+			n = lim
+		}
+		return n
+	}
+	window := func(vs []N) []N {
+		if off > len(vs) {
+			return nil
+		}
+		return vs[off:][:clip(len(vs))]
 	}
 	if c.Fn == "" {
 		// raw rows: only the multiset / order of values is defined
@@ -276,7 +302,7 @@ func checkResult[N aggregation.Number](k *kind[N], c *Case, pre, what string, go
 		for i, r := range got {
 			gv[i] = r.v
 		}
-		wantV := topReference(k, rawVals, c.TopN, c.TopAsc)
+		wantV := window(topReference(k, rawVals, c.TopN, c.TopAsc))
 		if !sameVals(k, gv, wantV) {
 			bad(fmt.Sprintf("N=%d result!=first-N-of-sorted-reference", c.TopN), "want "+fmtVals(k, wantV))
 		}
@@ -300,8 +326,8 @@ func checkResult[N aggregation.Number](k *kind[N], c *Case, pre, what string, go
 		seen[g] = true
 	}
 	if c.TopN == 0 {
-		if len(got) != len(want) && len(out) == 0 {
-			bad("group-lost", fmt.Sprintf("want %d groups", len(want)))
+		if len(got) != clip(len(want)) && len(out) == 0 {
+			bad("group-lost", fmt.Sprintf("want %d groups", clip(len(want))))
 		}
 		return out
 	}
@@ -309,7 +335,7 @@ func checkResult[N aggregation.Number](k *kind[N], c *Case, pre, what string, go
 	for _, w := range want {
 		all = append(all, w)
 	}
-	wantV := topReference(k, all, c.TopN, c.TopAsc)
+	wantV := window(topReference(k, all, c.TopN, c.TopAsc))
 	gv := make([]N, len(got))
 	for i, r := range got {
 		gv[i] = r.v
@@ -341,13 +367,13 @@ func runPlan[N aggregation.Number](k *kind[N], c *Case, st *stats) []viol {
 	sh := shardRows(c)
 	for s := 0; s < nShards; s++ {
 		for _, i := range sh[s] {
-			rows[i] = prow{fv: k.fv(vals[i]), field: k.field, group: groupNames[c.Rows[i].G], shard: s, idx: i}
+			rows[i] = prow{fv: k.fv(vals[i]), field: k.field, group: c.gname(c.Rows[i].G), gidx: c.Rows[i].G, shard: s, idx: i}
 		}
 	}
 	fn := fnIndex(c.Fn)
 	groupOf := func(i int) string {
 		if c.GroupBy {
-			return groupNames[c.Rows[i].G]
+			return c.gname(c.Rows[i].G)
 		}
 		return ""
 	}
@@ -384,7 +410,7 @@ func runPlan[N aggregation.Number](k *kind[N], c *Case, st *stats) []viol {
 	// for the sort-based group-by the storage hands rows over series by series: same association per group
 	// ---- standalone: everything in one place
 	cacheKey := fmt.Sprintf("%s|%s|%v|%v|%d|%v|%v", k.name, c.Fn, c.GroupBy, c.Entity, c.TopN, c.TopAsc, c.Rows)
-	if hit, ok := st.planCache[cacheKey]; ok {
+	if hit, ok := st.planCache[cacheKey]; ok && c.Shape == nil {
 		// same rows, same query, only the shard labels differ: the standalone answer was already computed and checked
 		out = append(out, hit.vs...)
 	} else {
@@ -405,7 +431,7 @@ func runPlan[N aggregation.Number](k *kind[N], c *Case, st *stats) []viol {
 		vs := checkResult(k, c, pre, "standalone", dOut, wantD, vals)
 		out = append(out, vs...)
 		st.outcome("plan", k.name, fnName, fmtOut(k, dOut))
-		if st.planCache != nil {
+		if st.planCache != nil && c.Shape == nil {
 			st.planCache[cacheKey] = &standalone{out: fmtOut(k, dOut), vs: vs}
 		}
 	}
